@@ -178,6 +178,9 @@ func (cx *Ctx) runC07() {
 				calls = append(calls, jobs[k].Calls[0])
 			}
 		}
+		if cx.hasViolation("process-dependent") || cx.processDependent(jobs[si].Calls[0], jobs[si].Res[0]) {
+			continue // fresh processes disagree among themselves: no history is needed to explain the difference
+		}
 		if v, _, _, _ := cx.historyViolates(calls); v {
 			cx.c07ShrinkHistory(&spec.Job{Kind: "history", Calls: calls})
 		} else {
@@ -551,6 +554,21 @@ func (cx *Ctx) historyViolatesRes(calls []spec.Call, res []spec.Resolution) (boo
 }
 
 func (cx *Ctx) c07ShrinkHistory(job *spec.Job) {
+	if cx.hasViolation("process-dependent") {
+		return // fresh processes disagree with each other anyway: a history is not needed to explain a difference
+	}
+	for i := range job.Calls {
+		c := job.Calls[i]
+		if c.NoRef || c.SameAs != nil || c.Opts.P1 == "greedy-random" || len(c.Edges) == 0 {
+			continue
+		}
+		if cx.processDependent(c, spec.Resolution{Adv: "identity"}) {
+			return
+		}
+		if i >= 3 {
+			break
+		}
+	}
 	calls := append([]spec.Call{}, job.Calls...)
 	// resolve SameAs into explicit copies so that calls can be dropped independently
 	for i := range calls {
@@ -833,7 +851,25 @@ func (cx *Ctx) determinismSample(jobs []*spec.Job, results []JobResult, n int) (
 		}
 	}
 	if mismatches > 0 {
-		cx.trouble("determinism self-test: %d of %d fresh re-executions differ from each other in trace hash / ticks / result", mismatches, compared)
+		// identical executions that RETURN different results: first ask whether the library's result differs from one
+		// fresh process to the next (a per-process source the simulator does not own); only what is left is trouble
+		explained := false
+		for k := range sample {
+			a := cx.multiOutcomes(cx.sim, ra[k])
+			b := cx.multiOutcomes(cx.sim, rb[k])
+			if a == nil || b == nil || len(a) != len(b) || len(a) == 0 {
+				continue
+			}
+			if a[0].Hash != b[0].Hash && a[0].Verdict == "OK" && b[0].Verdict == "OK" {
+				if cx.processDependent(sample[k].Calls[0], sample[k].Res[0]) {
+					explained = true
+					break
+				}
+			}
+		}
+		if !explained {
+			cx.trouble("determinism self-test: %d of %d fresh re-executions differ from each other in trace hash / ticks / result", mismatches, compared)
+		}
 	}
 	return map[string]any{"reexecutions_compared": compared, "mismatches": mismatches, "pooled_vs_fresh_result_differences": histDep,
 		"layouts": "each sampled job twice in fresh processes: 1 worker x GOMAXPROCS=1 and 4 workers x GOMAXPROCS=4, compared with each other (simulator determinism) and with the main run on 16 pooled workers (process-history independence of the library)"}, suspects
@@ -1131,8 +1167,16 @@ func (cx *Ctx) c07Env(jobs []*spec.Job, results []JobResult, n int) map[string]a
 					return v, rf, key, what
 				}
 				c := sample[k].Calls[0]
+				if cx.hasViolation("process-dependent") {
+					continue
+				}
+				if cx.processDependent(c, sample[k].Res[0]) {
+					continue // identical processes already disagree: not the environment
+				}
 				if ok, _, _, _ := viol(c); !ok {
-					cx.trouble("an environment-dependent result did not reproduce in fresh processes")
+					if !cx.processDependent(c, sample[k].Res[0]) {
+						cx.trouble("an environment-dependent result did not reproduce in fresh processes")
+					}
 					continue
 				}
 				c = shrinkCall(c, func(t spec.Call) bool { ok, _, _, _ := viol(t); return ok }, 40*time.Second)
@@ -1144,4 +1188,35 @@ func (cx *Ctx) c07Env(jobs []*spec.Job, results []JobResult, n int) map[string]a
 	}
 	return map[string]any{"specs_sampled": len(sample), "processes_on_other_simulated_machines_compared": compared, "differing": differ,
 		"what_varies": "answers of runtime.NumCPU / GOMAXPROCS, os.Getenv / LookupEnv, os.Getpid, os.Hostname while packages are initialised (VERIF_SIM_ENV); inside a call the same queries are a dimension of the resolution"}
+}
+
+// processDependent runs call c (identity resolution) in n identical fresh simulated processes; if they disagree it
+// shrinks the graph and reports "process-dependent". Reproduction is probabilistic by nature (the source is outside the
+// simulator), so every evaluation uses several processes.
+func (cx *Ctx) processDependent(c spec.Call, r spec.Resolution) bool {
+	viol := func(c spec.Call) (bool, *ReplayFile, string, string) {
+		j := spec.Job{ID: 0, Kind: "multi", Calls: []spec.Call{c}, Res: []spec.Resolution{r}, Budgets: cx.Budgets, WantFull: true}
+		rf := &ReplayFile{Property: "C07", Oracle: "c07.process", Note: "identical simulated executions in fresh processes: the differing source is outside the simulator, so a replay reproduces with high probability, not with certainty"}
+		for i := 0; i < 6; i++ {
+			rf.Jobs = append(rf.Jobs, ReplayJob{Pool: "simfresh", Job: j})
+		}
+		v, key, what, fp := cx.evalReplay(rf)
+		rf.Key, rf.What, rf.Expect = key, what, fp
+		return v, rf, key, what
+	}
+	ok, _, key, _ := viol(c)
+	if !ok {
+		return false
+	}
+	if cx.hasViolation(key) {
+		cx.report(key, "", nil)
+		return true
+	}
+	c = shrinkCall(c, func(t spec.Call) bool { ok, _, _, _ := viol(t); return ok }, 40*time.Second)
+	if ok, rf, key, what := viol(c); ok {
+		cx.report(key, what, rf)
+	} else if ok, rf, key, what := viol(c); ok {
+		cx.report(key, what, rf)
+	}
+	return true
 }
